@@ -381,7 +381,7 @@ def _worker(task):
         for _i in range(count):
             if budget and budget.over():
                 break
-            net = G.random_net(rng, n_inputs=rng.randint(0, 3), k_gates=rng.randint(1, 7), allow_no_outputs=True)
+            net = G.random_net(rng, n_inputs=rng.randint(0, 3), k_gates=rng.randint(1, 7), allow_no_outputs=True, large_every=60)
             if N.arity(net):
                 continue
             if rng.random() < 0.5:
